@@ -72,8 +72,9 @@ type Bed struct {
 	hmu   sync.Mutex
 	hooks []func(point string, args ...interface{})
 
-	tainted bool
-	rpc     *RPC
+	tainted  bool
+	rpc      *RPC
+	nClients uint32 // direct-mode clients created in the current case
 }
 
 var current atomic.Value // *Bed receiving vhook events
@@ -117,6 +118,7 @@ func Fresh() (*Bed, error) {
 	b.DB.Reset()
 	b.MQ.Reset()
 	b.ClearHooks()
+	atomic.StoreUint32(&b.nClients, 0)
 	if b.rpc != nil {
 		b.rpc.SetTaps(nil, nil)
 		b.rpc.SetFaults(nil, nil)
